@@ -707,6 +707,11 @@ inductive XKey where
   | tup (is : List Int)
   deriving DecidableEq, Repr, Inhabited
 
+/-- the ordinary key a path element is, if it is one -/
+def XKey.plain? : XKey → Option PKey
+  | .k key => some key
+  | .tup _ => none
+
 /-- The window `a[i₁, …, iₘ]` addresses in a C-contiguous array of shape `shape` (numpy basic indexing with a tuple
 of ints: at most `ndim` indices, each in range for its axis, negative from the end): `(relative offset, item shape)`;
 `none` is numpy's `IndexError`. -/
@@ -801,7 +806,7 @@ def setPathX (strict inPlace : Bool) (h : Heap) (tree : Ref) : List XKey → Ref
     | some .null =>
       -- `_default_tree` of the REST of the path: a tuple key further down would be stored as a dict key (not modelled)
       if strict then (h, .error .value)
-      else match rest.mapM (fun x => match x with | .k k' => some k' | .tup _ => none) with
+      else match rest.mapM XKey.plain? with
         | some rest' => defaultTree h (k :: rest') v
         | none => (h, .error .other)
     | some (.leaf _) => (h, .error .type)
